@@ -36,6 +36,9 @@ pub enum Op {
     ArmVeto,
     ArmAllocFail,
     ArmMprotectFail,
+    /// the next set_program / register_helper is first made `times - 1` times without any observation
+    /// in between (counters that wrap: 256, 65536 and their neighbours)
+    Repeat { times: u32 },
 }
 
 impl Op {
@@ -54,6 +57,7 @@ impl Op {
             Op::ArmVeto => "fault:verifier_veto",
             Op::ArmAllocFail => "fault:jit_page_alloc_fail",
             Op::ArmMprotectFail => "fault:jit_mprotect_fail",
+            Op::Repeat { .. } => "repeat_next",
         }
     }
     pub fn kind_code(&self) -> u8 {
@@ -71,6 +75,7 @@ impl Op {
             Op::ArmVeto => 10,
             Op::ArmAllocFail => 11,
             Op::ArmMprotectFail => 12,
+            Op::Repeat { .. } => 13,
         }
     }
     pub fn to_json(&self) -> JsonValue {
@@ -104,6 +109,7 @@ impl Op {
                 o["pkt"] = (*pkt).into();
                 o["mb"] = (*mb).into();
             }
+            Op::Repeat { times } => o["times"] = (*times).into(),
             _ => {}
         }
         o
@@ -132,6 +138,7 @@ impl Op {
             "fault:verifier_veto" => Op::ArmVeto,
             "fault:jit_page_alloc_fail" => Op::ArmAllocFail,
             "fault:jit_mprotect_fail" => Op::ArmMprotectFail,
+            "repeat_next" => Op::Repeat { times: v["times"].as_u32()?.min(70000) },
             _ => return None,
         })
     }
@@ -370,7 +377,7 @@ pub fn op_is_safe(sc: &Scenario, m: Option<&Model>, op: &Op) -> bool {
                 }
             }
         }
-        Op::ArmVeto | Op::ArmAllocFail | Op::ArmMprotectFail => m.is_some(),
+        Op::ArmVeto | Op::ArmAllocFail | Op::ArmMprotectFail | Op::Repeat { .. } => m.is_some(),
     }
 }
 
@@ -456,6 +463,7 @@ pub struct Runner<'s> {
     pending_veto: bool,
     pending_alloc_fail: bool,
     pending_mprotect_fail: bool,
+    pending_repeat: u32,
     log: Fnv,
     hist: Fnv,
     counters: Counters,
@@ -527,6 +535,7 @@ impl<'s> Runner<'s> {
             pending_veto: false,
             pending_alloc_fail: false,
             pending_mprotect_fail: false,
+            pending_repeat: 0,
             log: Fnv::new(),
             hist: Fnv::new(),
             counters: Counters::default(),
@@ -1452,6 +1461,7 @@ impl<'s> Runner<'s> {
         let veto = std::mem::take(&mut self.pending_veto);
         let alloc_fail = std::mem::take(&mut self.pending_alloc_fail);
         let mprotect_fail = std::mem::take(&mut self.pending_mprotect_fail);
+        let repeat = std::mem::take(&mut self.pending_repeat);
         self.log.byte(op.kind_code());
         match op {
             Op::ArmVeto => {
@@ -1462,6 +1472,11 @@ impl<'s> Runner<'s> {
             Op::ArmAllocFail => {
                 self.pending_alloc_fail = true;
                 self.t(|| format!("[{}] fault armed: the next 4096-aligned allocation returns null", at));
+                Ok(())
+            }
+            Op::Repeat { times } => {
+                self.pending_repeat = *times;
+                self.t(|| format!("[{}] the next set_program / register_helper is made {} times", at, times));
                 Ok(())
             }
             Op::ArmMprotectFail => {
@@ -1535,6 +1550,18 @@ impl<'s> Runner<'s> {
                     self.sweep(at, Some(""))?;
                 }
                 let bytes: &[u8] = unsafe { std::slice::from_raw_parts(self.arena.progs[*pid].as_ptr(), self.arena.progs[*pid].len()) };
+                if repeat > 1 && predicted_ok {
+                    for k in 1..repeat {
+                        let o = self.vm.as_mut().unwrap().set_program(bytes, *doff, *eoff);
+                        if k % 1024 == 0 {
+                            tls(|t| t.verifier_log.clear());
+                        }
+                        if !o.is_ok() {
+                            return Err(self.c10("history-dependent-result/set_program".into(), at, format!("the {}th identical set_program(prog#{}) in a row returned {}", k, pid, o.short())));
+                        }
+                    }
+                    self.counters.add("set_program_repeated_calls", repeat as u64 - 1);
+                }
                 tls(|t| {
                     t.verifier_log.clear();
                     t.veto_armed = veto_fires;
@@ -1683,6 +1710,12 @@ impl<'s> Runner<'s> {
                 }
             }
             Op::RegisterHelper { key, hid } => {
+                for k in 1..repeat {
+                    let o = self.vm.as_mut().unwrap().register_helper(*key, *hid);
+                    if !o.is_ok() {
+                        return Err(self.c10("history-dependent-panic-or-crash/register_helper".into(), at, format!("the {}th identical register_helper in a row -> {}", k, o.short())));
+                    }
+                }
                 let o = self.vm.as_mut().unwrap().register_helper(*key, *hid);
                 self.log.byte(o.code());
                 self.t(|| format!("[{}] register_helper({:#x}, {}) -> {}", at, key, H_NAMES[*hid as usize], o.short()));
